@@ -94,6 +94,9 @@ pub struct Model {
     pub reply_plans: BTreeMap<(String, u64), VecDeque<Node>>,
     pub fault_plan: BTreeSet<(String, u32)>,
     pub call_counts: BTreeMap<String, u32>,
+    /// what answers behind the recorders of custom / ibc / gov / stargate:
+    /// 0 stub with fault plan, 1 the repo's accepting module, 2 its failing module, 3 (custom) CachingCustomHandler
+    pub module_cfg: [u8; 4],
     pub height: u64,
     pub time_nanos: u64,
     pub chain_id: String,
@@ -188,6 +191,7 @@ impl Model {
             reply_plans: BTreeMap::new(),
             fault_plan: BTreeSet::new(),
             call_counts: BTreeMap::new(),
+            module_cfg: [0; 4],
             height,
             time_nanos,
             chain_id,
@@ -238,11 +242,32 @@ impl Model {
     }
 
     /// Records a module call; Err when the fault plan rejects it.
+    fn module_cfg_of(&self, kind: &str) -> u8 {
+        match kind {
+            "custom" | "custom.query" => self.module_cfg[0],
+            "ibc" | "ibc.query" => self.module_cfg[1],
+            "gov" => self.module_cfg[2],
+            "stargate" | "any" | "stargate.query" | "grpc.query" => self.module_cfg[3],
+            _ => 0,
+        }
+    }
+
     fn module_call(&mut self, kind: &str, sender: &str, payload: String) -> Result<u32, ()> {
         self.module_calls.push(ModCall { kind: kind.to_string(), sender: sender.to_string(), payload });
         let c = self.call_counts.entry(kind.to_string()).or_insert(0);
         let n = *c;
         *c += 1;
+        match self.module_cfg_of(kind) {
+            0 => {}
+            2 => {
+                self.fault(&format!("failing_module:{}", kind));
+                return Err(());
+            }
+            _ => {
+                self.probe("accepting_module_call");
+                return Ok(n + 1);
+            }
+        }
         if self.fault_plan.contains(&(kind.to_string(), n)) {
             self.fault(&format!("module_reject:{}", kind));
             Err(())
@@ -671,28 +696,28 @@ impl Model {
                 }
                 let tag = tag.clone();
                 match self.module_call("custom.query", "", tag.clone()) {
-                    Ok(_) => format!("custom.query:{}", tag),
+                    Ok(_) => self.module_answer("custom.query", &tag),
                     Err(()) => "ERR".into(),
                 }
             }
             QueryOp::Ibc { tag } => {
                 let tag = tag.clone();
                 match self.module_call("ibc.query", "", tag.clone()) {
-                    Ok(_) => format!("ibc.query:{}", tag),
+                    Ok(_) => self.module_answer("ibc.query", &tag),
                     Err(()) => "ERR".into(),
                 }
             }
             QueryOp::Stargate { tag } => {
                 let tag = tag.clone();
                 match self.module_call("stargate.query", "", tag.clone()) {
-                    Ok(_) => format!("stargate.query:{}", tag),
+                    Ok(_) => self.module_answer("stargate.query", &tag),
                     Err(()) => "ERR".into(),
                 }
             }
             QueryOp::Grpc { tag } => {
                 let tag = tag.clone();
                 match self.module_call("grpc.query", "", tag.clone()) {
-                    Ok(_) => format!("grpc.query:{}", tag),
+                    Ok(_) => self.module_answer("grpc.query", &tag),
                     Err(()) => "ERR".into(),
                 }
             }
@@ -735,6 +760,21 @@ impl Model {
     /// Answer to an App-level query (committed state).
     pub fn answer_pub(&mut self, q: &QueryOp) -> String {
         self.answer(q, "", CodeKind::Direct)
+    }
+
+    /// Raw bytes (hex) a module query returns.
+    fn module_answer(&self, kind: &str, tag: &str) -> String {
+        match self.module_cfg_of(kind) {
+            0 => hex(format!("\"{}:{}\"", kind, tag).as_bytes()),
+            // the repo's accepting modules: empty data, except the stargate query handler ("{}")
+            _ => {
+                if kind == "stargate.query" {
+                    hex(b"{}")
+                } else {
+                    String::new()
+                }
+            }
+        }
     }
 
     fn entry_fault_name(entry: &str) -> String {
